@@ -38,6 +38,46 @@ class Skip(Exception):
     pass
 
 
+def innermost(f):
+    """The function a chain of decorators finally calls.  Methods inherited from
+    a mixin are re-created by cfdm's docstring metaclass, after which
+    inspect.signature only sees (self, *args, **kwargs); follow __wrapped__ and
+    the decorators' closure cells instead."""
+    seen = set()
+    while id(f) not in seen:
+        seen.add(id(f))
+        w = getattr(f, "__wrapped__", None)
+        if w is not None:
+            f = w
+            continue
+        nxt = None
+        for cell in (getattr(f, "__closure__", None) or ()):
+            try:
+                c = cell.cell_contents
+            except ValueError:
+                continue
+            if inspect.isfunction(c):
+                nxt = c
+                break
+        if nxt is None:
+            break
+        f = nxt
+    return f
+
+
+def real_signature(f):
+    sig = inspect.signature(f)
+    ps = list(sig.parameters.values())
+    if any(p.kind == p.VAR_POSITIONAL for p in ps) and any(p.kind == p.VAR_KEYWORD for p in ps) and len(ps) <= 3:
+        g = innermost(f)
+        if g is not f:
+            try:
+                return inspect.signature(g)
+            except (TypeError, ValueError):
+                pass
+    return sig
+
+
 # ---------------------------------------------------------------------------
 # fingerprints
 # ---------------------------------------------------------------------------
@@ -144,7 +184,7 @@ def getters_of(cls):
         if not callable(f):
             continue
         try:
-            sig = inspect.signature(f)
+            sig = real_signature(f)
         except (TypeError, ValueError):
             continue
         ps = list(sig.parameters.values())[1:]
@@ -183,6 +223,16 @@ def pub_fp(x, depth=0):
             out["[types]"] = {k: x.construct_type(k) for k in x.keys()}
         except Exception as e:
             out["[keys]"] = "raises:" + type(e).__name__
+        # the filter history is observable state too: unfilter(depth) / inverse_filter()
+        try:
+            hist = x.filters_applied() if hasattr(x, "filters_applied") else ()
+            if hist and depth < 6:
+                out["[filters_applied]"] = canon_value(list(hist), depth + 1)
+                for dpt in range(1, len(hist) + 1):
+                    u = x.unfilter(depth=dpt)
+                    out["[unfilter %d]" % dpt] = {k: pub_fp(v, depth + 2) for k, v in u.items()}
+        except Exception as e:
+            out["[filters_applied]"] = "raises:" + type(e).__name__
     elif hasattr(x, "constructs") and not isinstance(x, cfdm.core.Constructs):
         try:
             out["[constructs]"] = pub_fp(x.constructs, depth + 1)
@@ -391,6 +441,11 @@ def build_pool(scratch=None, nfields=12):
         try:
             add(fl + ".constructs", f.constructs)
             add(fl + ".constructs.filtered", f.constructs.filter_by_type("dimension_coordinate", "auxiliary_coordinate"))
+            if fl in ("f1", "f0", "g0", "f6"):
+                c2 = f.constructs.filter_by_type("dimension_coordinate", "auxiliary_coordinate", "domain_axis")
+                c2 = c2.filter_by_type("dimension_coordinate")
+                add(fl + ".constructs.filtered2", c2)
+                add(fl + ".constructs.inverse", c2.inverse_filter())
         except Exception:
             pass
         if f.has_data():
@@ -451,6 +506,14 @@ def build_pool(scratch=None, nfields=12):
                                           qualifiers={"within": "years", "interval": [cfdm.Data(1, "hr")]}))
     add("domainaxis.new", cfdm.DomainAxis(5))
     add("field.empty", cfdm.Field())
+    try:
+        # a template: domain axes and coordinates, but neither data nor data axes yet
+        t = cfdm.example_field(0)
+        t.del_data()
+        t.del_data_axes()
+        add("field.template", t)
+    except Exception as e:
+        sys.stderr.write("field.template unavailable: %r\n" % (e,))
     add("constructs.empty", cfdm.Field().constructs)
     return pool
 
@@ -740,7 +803,7 @@ def build_call(x, kind, mname, variant):
         return [], {}
     f = getattr(cls, mname)
     try:
-        sig = inspect.signature(f)
+        sig = real_signature(f)
     except (TypeError, ValueError):
         raise Skip("no signature")
     params = list(sig.parameters.values())
@@ -1015,6 +1078,32 @@ def mutate_battery(r, depth=0, seen=None):
                 n += scribble(cs[k], depth + 1, seen)
         except Exception:
             pass
+        # every route back through the filter history of a filtered collection
+        if hasattr(cs, "filters_applied"):
+            try:
+                nf = len(cs.filters_applied())
+            except Exception:
+                nf = 0
+            routes = []
+            if nf:
+                for dpt in list(range(1, nf + 1)):
+                    for mk in (lambda d=dpt: cs.unfilter(depth=d), lambda d=dpt: cs.unfilter(depth=d, copy=False),
+                               lambda d=dpt: cs.inverse_filter(depth=d)):
+                        try:
+                            routes.append(mk())
+                        except Exception:
+                            pass
+                for mk in (lambda: cs.unfilter(), lambda: cs.inverse_filter()):
+                    try:
+                        routes.append(mk())
+                    except Exception:
+                        pass
+            for u in routes:
+                try:
+                    for k in sorted(u.keys()):
+                        n += scribble(u[k], depth + 1, seen)
+                except Exception:
+                    pass
         if hasattr(r, "del_construct"):
             for k in sorted(cs.keys())[::-1][:3]:
                 tr(lambda k=k: r.del_construct(k))
@@ -1127,12 +1216,162 @@ def run_case(pool, label, kind, mname, variant, direction, F0):
     return row
 
 
+def _own_data(x):
+    if isinstance(x, cfdm.core.Data):
+        return x
+    try:
+        return x.get_data(None)
+    except Exception:
+        return None
+
+
+def scenario(x, mname, variant):
+    """In-place protocol variants >= 3: argument values chosen to DIFFER from the
+    receiver's current state, so that the operation has an effect (3, 4) or
+    fails after it has started (5).  May first prepare the receiver (before its
+    fingerprint is taken).  -> (args, kwargs)"""
+    sig = real_signature(getattr(type(x), mname))
+    names = set(sig.parameters)
+    d = _own_data(x)
+    nd = d.ndim if d is not None else 0
+    isfield = isinstance(x, cfdm.core.Field)
+    if mname == "set_data":
+        if isfield and "axes" in names:
+            if variant == 3:
+                # a template without data and data axes receives data AND axes
+                data = x.del_data(None)
+                axes = x.del_data_axes(default=None)
+                if data is None or axes is None:
+                    da = x.domain_axes(todict=True)
+                    axes = sorted(da)
+                    if not axes:
+                        raise Skip("no domain axes")
+                    data = cfdm.Data(np.arange(int(np.prod([da[k].get_size() for k in axes])), dtype=float).reshape(
+                        [da[k].get_size() for k in axes]))
+                return [], {"data": data, "axes": list(axes)}
+            axes = x.get_data_axes(default=None)
+            if d is None or axes is None or nd < 2 or len(set(d.shape)) < 2:
+                raise Skip("needs data with two axes of different sizes")
+            if variant == 4:      # the same values in another axis order
+                return [], {"data": d.transpose(), "axes": list(axes)[::-1]}
+            return [], {"data": d.copy(), "axes": list(axes)[::-1]}      # 5: shape does not fit the axes
+        if variant == 3:
+            n = d.size + 1 if d is not None else 4
+            return [], {"data": cfdm.Data(np.arange(float(n)))}
+        if variant == 4:
+            return [], {"data": cfdm.Data(np.array(["a", "bc"])), "copy": False}
+        raise Skip("no raising scenario")
+    if mname == "squeeze":
+        if variant == 5:
+            return [], {"axes": [nd + 3]}
+        if d is None:
+            raise Skip("no data")
+        ones = [i for i, n in enumerate(d.shape) if n == 1]
+        if isfield:
+            if not ones:
+                raise Skip("no size-1 data axis")
+            ax = x.get_data_axes(default=())
+            return [], {"axes": [ax[ones[0]]] if variant == 3 else None}
+        if not ones:
+            x.insert_dimension(0, inplace=True)
+            ones = [0]
+        return [], {"axes": [ones[0]] if variant == 3 else None}
+    if mname == "transpose":
+        if nd < 2:
+            raise Skip("needs two axes")
+        if variant == 5:
+            return [], {"axes": [0] * nd}
+        kw = {"axes": list(range(nd))[::-1] if variant == 3 else [1, 0] + list(range(2, nd))}
+        if "constructs" in names:
+            kw["constructs"] = variant == 3
+        return [], kw
+    if mname == "insert_dimension":
+        if isfield:
+            if variant == 5:
+                return [], {"axis": "c04_no_such_axis"}
+            spanned = set(x.get_data_axes(default=()))
+            free = [k for k in sorted(x.domain_axes(todict=True)) if k not in spanned]
+            if not free:
+                free = [x.set_construct(cfdm.DomainAxis(1))]
+            kw = {"axis": free[0], "position": 0 if variant == 3 else nd}
+            if variant == 4 and "constructs" in names:
+                kw["constructs"] = True
+            return [], kw
+        if d is None:
+            raise Skip("no data")
+        return [], {"position": nd if variant == 3 else (0 if variant == 4 else nd + 5)}
+    if mname == "flatten":
+        if nd < 2:
+            raise Skip("needs two axes")
+        return [], {"axes": [0, 1] if variant == 3 else (None if variant == 4 else [nd + 2])}
+    if mname == "filled":
+        if variant == 5:
+            raise Skip("no raising scenario")
+        if d is None or d.dtype.kind not in "iuf" or not d.size:
+            raise Skip("needs numeric data")
+        x[tuple([slice(0, 1)] * nd) if nd else Ellipsis] = cfdm.masked
+        return [], {"fill_value": -5 if variant == 3 else None}
+    if mname == "masked_values":
+        if d is None or d.dtype.kind not in "iuf" or not d.size:
+            raise Skip("needs numeric data")
+        if variant == 5:
+            return [], {"value": "not a number"}
+        a = np.ma.compressed(d.array)
+        if not a.size:
+            raise Skip("all masked")
+        return [], {"value": a[0].item() if variant == 3 else a[-1].item()}
+    if mname == "apply_masking":
+        if d is None and not hasattr(x, "constructs"):
+            raise Skip("no data")
+        if isinstance(x, cfdm.core.Data):
+            if d.dtype.kind not in "iuf" or not d.size:
+                raise Skip("needs numeric data")
+            a = np.ma.compressed(d.array)
+            if not a.size:
+                raise Skip("all masked")
+            if variant == 3:
+                return [], {"fill_values": [a[0].item()]}
+            if variant == 4:
+                return [], {"valid_min": float(np.median(a))}
+            return [], {"valid_range": [1, 2], "valid_min": 1}
+        if variant == 5:
+            raise Skip("no raising scenario")
+        targets = [x] if d is not None else []
+        if hasattr(x, "constructs"):
+            targets += [c for _, c in sorted(x.constructs.filter_by_data(todict=True).items())][:3]
+        done = 0
+        for t in targets:
+            td = t.get_data(None)
+            if td is None or td.dtype.kind not in "iuf" or not td.size:
+                continue
+            a = np.ma.compressed(td.array)
+            if a.size:
+                t.set_property("missing_value" if variant == 3 else "valid_max", a[0].item() if variant == 3 else float(np.median(a)))
+                done += 1
+        if not done:
+            raise Skip("nothing to mask")
+        return [], ({"bounds": True} if "bounds" in names else {})
+    if mname == "compress":
+        return [], {"method": ["indexed_contiguous", "gathered", "c04_no_such_method"][variant - 3]}
+    if mname in ("uncompress", "to_memory"):
+        if variant != 3:
+            raise Skip("no further scenario")
+        return [], {}
+    if mname == "normalise":
+        if variant == 3:
+            return [], {"start_index": 1}
+        if variant == 4:
+            return [], {"remove_empty_columns": True}
+        return [], {"start_index": 7}
+    raise Skip("no scenario for this method")
+
+
 def run_protocol_case(pool, row, x0, kind, mname, variant, F0):
     """m(inplace=False) leaves the receiver unchanged and returns what
     m(inplace=True) makes of a copy; the placeholder never survives."""
     x = x0.copy()
     try:
-        args, kw = build_call(x, kind, mname, variant)
+        args, kw = build_call(x, kind, mname, variant) if variant < 3 else scenario(x, mname, variant)
     except Skip as s:
         row["skip"] = str(s)
         return row
@@ -1160,7 +1399,7 @@ def run_protocol_case(pool, row, x0, kind, mname, variant, F0):
     row["placeholder_receiver"] = has_placeholder(x)
     z = x0.copy()
     try:
-        args2, kw2 = build_call(z, kind, mname, variant)
+        args2, kw2 = build_call(z, kind, mname, variant) if variant < 3 else scenario(z, mname, variant)
         kw2.pop("inplace", None)
         if variant == 2:
             kw2["c04_no_such_keyword"] = 1
@@ -1176,6 +1415,10 @@ def run_protocol_case(pool, row, x0, kind, mname, variant, F0):
         else:
             row["placeholder_result"] = has_placeholder(r)
             row["result_is_receiver"] = r is x
+            try:
+                row["effect"] = pub_fp(r) != Fx0["pub"]      # did the operation do anything?
+            except Exception:
+                pass
             k3, d3 = compare(fp(r, raw=False), fp(z, raw=False))
             if k3:
                 row["result_differs"] = k3
@@ -1196,7 +1439,7 @@ def run_protocol_case(pool, row, x0, kind, mname, variant, F0):
 
 def has_inplace(cls, mname):
     try:
-        return "inplace" in inspect.signature(getattr(cls, mname)).parameters
+        return "inplace" in real_signature(getattr(cls, mname)).parameters
     except Exception:
         return False
 
@@ -1249,7 +1492,7 @@ def do_sweep(payload):
                         x0 = pool[label]
                         F0 = fp(x0)
             if kind == "method" and has_inplace(type(x0), mname):
-                for variant in (0, 1, 2):
+                for variant in (0, 1, 2, 3, 4, 5):
                     try:
                         row = run_case(pool, label, kind, mname, variant, "P", F0)
                     except Exception as e:
@@ -1270,8 +1513,16 @@ def do_list(payload):
         if c.__name__ not in inv:
             inv[c.__name__] = [[k, m] for k, m in operations(c)]
     public_classes = sorted(n for n, c in vars(cfdm).items() if inspect.isclass(c) and issubclass(c, Container))
+    inplace_all = {}
+    for n, c in vars(cfdm).items():
+        if inspect.isclass(c) and issubclass(c, Container):
+            ms = [m for m in sorted(dir(c)) if not m.startswith("_") and callable(getattr(c, m, None))
+                  and not isinstance(inspect.getattr_static(c, m), (property, classmethod, staticmethod))
+                  and has_inplace(c, m)]
+            if ms:
+                inplace_all[n] = ms
     print(json.dumps({"labels": [[l, type(o).__name__] for l, o in pool.items()], "inventory": inv,
-                      "public_classes": public_classes}))
+                      "public_classes": public_classes, "inplace_methods_all": inplace_all}))
 
 
 def main():
@@ -1352,6 +1603,10 @@ def do_graph(payload):
         for how in payload.get("how", ["copy"]):
             g = Grapher()
             try:
+                # warm the lazily refreshed private caches first: coordinate.get_bounds() (called by
+                # the copy on its SOURCE) stores the parent's properties as the bounds'
+                # 'inherited_properties', and Bounds.get_data() stores inherited units on its data
+                x.copy()
                 tx = g.tree(x)
                 n = len(g.ids)
                 y = x.copy() if how == "copy" else pycopy.deepcopy(x)
@@ -1366,7 +1621,7 @@ def do_graph(payload):
                 print(json.dumps({"label": label, "how": how, "graph_error": errname(e) + ": " + str(e)[:200]}), flush=True)
         if payload.get("set_data") and hasattr(x, "set_data") and not isinstance(x, cfdm.core.Data):
             try:
-                sig = inspect.signature(type(x).set_data)
+                sig = real_signature(type(x).set_data)
                 if "inplace" in sig.parameters and x.has_data():
                     g = Grapher()
                     tx = g.tree(x)
